@@ -141,9 +141,11 @@ func c16Product(tier string) func(n *engine.Node) []world.Op {
 	signersFull := []string{"authority"}
 	signersOther := []string{"user", "module", "empty", "malformed"}
 	denoms := []string{"aaa", "bbb", "ccc", "zzz", "", "!bad"}
-	weights := []string{"nil", "-1", "0", "0.5", "1", "5", "6"}
+	// 9223372036854775807 (MaxInt64) is the upper bound the v4 migration gives every pre-existing alliance: a constant of the
+	// code base, offered as a range bound together with the weight just above it
+	weights := []string{"nil", "-1", "0", "0.5", "1", "5", "6", "9223372036854775808"}
 	// (2,5) and (0,0.5) are well-formed ranges that exclude the stored weights (1 and 2) of the seeded assets
-	ranges := []string{"nil", "0,5", "1,1", "2,1", "-1,5", "2,5", "0,0.5"}
+	ranges := []string{"nil", "0,5", "1,1", "2,1", "-1,5", "2,5", "0,0.5", "0,9223372036854775807"}
 	takes := []string{"nil", "-0.1", "0", "0.5", "0.999999999999999999", "1", "2"}
 	rates := []string{"nil", "-1", "0", "0.000000000000000001", "0.5", "1", "2"}
 	intervals := []int64{-1, 0, int64(U), int64(2 * U)}
